@@ -42,9 +42,32 @@ Verdict(c) ==
          THEN "fail:ignored_points_reevaluation"
        ELSE "ok"
 
+(* C16 records ("cols"): p, tol, rows = list of [cols, sv, alpha, betas] -- for each reported     *)
+(* anomaly the reported column list (1-based), the component savings recorded from an           *)
+(* independent saving and the sparse / point penalty in force; dense_ok = transform marks       *)
+(* exactly these columns on exactly these rows (decided by Formats' S2DSubset in the harness'   *)
+(* C05 pipeline and passed as a boolean).                                                        *)
+ColsVerdict(c) ==
+    LET rowOK(r) ==
+          LET cols == r[1] sv == r[2] alpha == r[3] betas == r[4]
+              val(k) == LET top == CHOOSE T \in SUBSET (1..c.p) : Cardinality(T) = k /\ TopK(sv, T, c.p)
+                        IN SumOver(sv, top) - alpha - SumSeq(betas, k)
+              best == Max({val(k) : k \in 1..c.p})
+              decisive == /\ \A i, j \in 1..c.p : i # j => Abs(sv[i] - sv[j]) > c.tol
+                          /\ \A k \in 1..c.p : val(k) = best \/ val(k) < best - c.tol
+          IN IF ~decisive THEN "skip" ELSE IF ColsAdmit(sv, alpha, betas, c.p, cols) THEN "ok" ELSE "bad"
+        res == {rowOK(c.rows[i]) : i \in 1..Len(c.rows)}
+    IN IF \E i \in 1..Len(c.rows) : LET cols == c.rows[i][1] IN
+             ~(Len(cols) >= 1 /\ Cardinality(Range(cols)) = Len(cols) /\ Range(cols) \subseteq 1..c.p)
+         THEN "fail:columns_not_well_formed"
+       ELSE IF "bad" \in res THEN "fail:affected_columns_not_the_optimal_subset"
+       ELSE IF ~c.dense_ok THEN "fail:transform_marks_other_cells"
+       ELSE IF "skip" \in res THEN "skip:ties_within_rounding"
+       ELSE "ok"
+
 Init == tid = 0 /\ verdict = "start"
 Next == /\ tid < Len(Cases)
         /\ tid' = tid + 1
-        /\ verdict' = Verdict(Cases[tid + 1])
+        /\ verdict' = IF Cases[tid + 1].rec = "cols" THEN ColsVerdict(Cases[tid + 1]) ELSE Verdict(Cases[tid + 1])
         /\ PrintT(<<"VERDICT", Cases[tid + 1].id, verdict'>>)
 =============================================================================
